@@ -65,6 +65,7 @@ class Sim(object):
         K.unlisted = w.get('unlisted')
         K.binds = set(w.get('binds') or ())
         K.same_device = set(w.get('same_device') or ())
+        K.automount = set(w.get('automount') or ())
         for m in K.mounts:
             if not os.path.isdir(self.root + m) or os.path.islink(self.root + m):
                 raise HarnessError('mount point %r is not a directory in the world' % m)
